@@ -108,7 +108,7 @@ def simplify_args(ops, fails):
             if op.get('op') == 'add':
                 if op.get('e') is not None:
                     trials.append(dict(op, e=None))
-                    if op['e'] - op['t'] > 1:
+                    if op.get('t') is not None and op['e'] - op['t'] > 1:
                         trials.append(dict(op, e=op['e'] - 1))
                 if op.get('sp') not in (None, 'pos', 'no_t'):
                     trials.append(dict(op, sp='pos'))
